@@ -190,6 +190,81 @@ pub fn run(tier: &str, seed: u64, out: &str) {
     for h in hs {
         h.join().unwrap();
     }
+    // instances of their own: every thread builds its instances itself (the one-instance-per-thread pattern of bindings and
+    // servers), then makes the same calls as everybody else; whatever they draw must be fresh across threads and across
+    // instances, and with respect to everything drawn above
+    let own_threads = 6usize;
+    let own_iters = if tier == "thorough" { 400usize } else { 40 };
+    let mut hs = vec![];
+    for t in 0..own_threads {
+        let (mskb, mpkb) = bases[0].clone();
+        let seen = seen.clone();
+        hs.push(std::thread::spawn(move || {
+            let mut local = Seen::default();
+            for _inst in 0..2 {
+                let cc = Covercrypt::default();
+                let mut msk = cosmian_cover_crypt::MasterSecretKey::deserialize(&mskb).unwrap();
+                let mpk = MasterPublicKey::deserialize(&mpkb).unwrap();
+                let pol_c = AccessPolicy::parse("D::A && S::L || D::A").unwrap();
+                let pol_h = AccessPolicy::parse("S::T").unwrap();
+                for i in 0..own_iters {
+                    let pol = if i % 2 == 0 { &pol_c } else { &pol_h };
+                    let (ss, x) = cc.encaps(&mpk, pol).unwrap();
+                    let w = WEnc::read(&x.serialize().unwrap()).unwrap();
+                    local.add("encapsulation tag", &w.tag);
+                    for c in &w.c {
+                        local.add("trap", c);
+                    }
+                    for (e, f) in &w.encs {
+                        local.add("masked seed F", f);
+                        if !e.is_empty() {
+                            local.add("ML-KEM ciphertext", e);
+                        }
+                    }
+                    local.add("shared secret", &ss[..]);
+                    if i % 4 == 0 {
+                        let (_, ctx) = PkeAc::<{ Aes256Gcm::KEY_LENGTH }, Aes256Gcm>::encrypt(&cc, &mpk, &pol_c, b"same plaintext").unwrap();
+                        local.add("PKE nonce", &ctx[..12]);
+                        let (sec, h) = EncryptedHeader::generate(&cc, &mpk, &pol_c, Some(b"same metadata"), Some(b"ad")).unwrap();
+                        local.add("header metadata nonce", &h.encrypted_metadata.as_ref().unwrap()[..12]);
+                        local.add("header secret", &sec[..]);
+                        let u = cc.generate_user_secret_key(&mut msk, &pol_c).unwrap();
+                        let w = WUsk::read(&u.serialize().unwrap()).unwrap();
+                        local.add("user id", &w.id.concat());
+                    }
+                    if i % 16 == 0 {
+                        let k = cc.rekey(&mut msk, &AccessPolicy::parse("D::A").unwrap()).unwrap();
+                        let w = WMpk::read(&k.serialize().unwrap()).unwrap();
+                        for (r, key) in &w.keys {
+                            if r.len() == 1 && r[0] == 2 {
+                                local.add("published public value of the rekeyed right", &key.a);
+                            }
+                        }
+                    }
+                }
+                // a master key set up by this instance: its public tracers and first public value are drawn by it
+                let (m2, k2) = cc.setup().unwrap();
+                let _ = m2;
+                let w = WMpk::read(&k2.serialize().unwrap()).unwrap();
+                for p in &w.tpk {
+                    local.add("public tracer of a fresh master key", p);
+                }
+            }
+            let mut g = seen.lock().unwrap();
+            for (cat, set) in local.sets {
+                for v in set {
+                    *g.counts.entry(cat).or_default() += 1;
+                    if !g.sets.entry(cat).or_default().insert(v.clone()) && g.dups.len() < 20 {
+                        g.dups.push((format!("{cat} (instances built by different threads, thread {t})"), hex(&v)));
+                    }
+                }
+            }
+            g.dups.extend(local.dups);
+        }));
+    }
+    for h in hs {
+        h.join().unwrap();
+    }
     let g = seen.lock().unwrap();
     let fails: Vec<serde_json::Value> = g.dups.iter().map(|(cat, v)| serde_json::json!({
         "kind": "impl-oracle", "oracle": "freshness", "tags": [cat], "what": format!("{cat} repeated: {v}"), "lines": [], "case": cat})).chain(sep_fails.iter().cloned()).collect();
@@ -201,7 +276,7 @@ pub fn run(tier: &str, seed: u64, out: &str) {
         "soft_kind_mismatch": 0, "matrix_cells": 0, "matrix_open": 0,
         "samples": [{"iterations": per * threads, "threads": threads, "instances": 2, "categories": g.counts.keys().collect::<Vec<_>>()}],
         "mismatches": [],
-        "extra": {"rule": format!("{} iterations of identical calls (encaps for a classic and a hybridised policy, re-encapsulation of the result, PKE encryption of the same plaintext, header generation with the same metadata, key generation, rekey of one right) on {} threads over 2 instances; tags, traps, masked seeds, ML-KEM ciphertexts, shared secrets, AEAD nonces, header secrets, user ids and markers, published public values are extracted from the serialised outputs and must be pairwise distinct within and across threads and instances; plus 2000 direct AE::encrypt calls under one fixed key (nonces pairwise distinct), plus key separation: for 773 choices of authentication data (absent, empty, every one-byte value, 0x00/0x01 followed by every byte, longer ones) the secret returned by EncryptedHeader::generate must not open the encrypted metadata as an AES-256-GCM key; statistical support only (birthday bound 2^-64 for the 96-bit nonces at 10^6 draws is negligible); distinct = distinct extracted values", per * threads, threads),
+        "extra": {"rule": format!("{} iterations of identical calls (encaps for a classic and a hybridised policy, re-encapsulation of the result, PKE encryption of the same plaintext, header generation with the same metadata, key generation, rekey of one right) on {} threads over 2 instances, then 6 threads that each build 2 instances of their own and make the same calls (and set up a master key: its public tracers); tags, traps, masked seeds, ML-KEM ciphertexts, shared secrets, AEAD nonces, header secrets, user ids and markers, published public values are extracted from the serialised outputs and must be pairwise distinct within and across threads and instances; plus 2000 direct AE::encrypt calls under one fixed key (nonces pairwise distinct), plus key separation: for 773 choices of authentication data (absent, empty, every one-byte value, 0x00/0x01 followed by every byte, longer ones) the secret returned by EncryptedHeader::generate must not open the encrypted metadata as an AES-256-GCM key; statistical support only (birthday bound 2^-64 for the 96-bit nonces at 10^6 draws is negligible); distinct = distinct extracted values", per * threads, threads),
             "exhaustive": false, "per_line": true, "oracle_failures": fails, "oracle_checked": values + sep_checked, "campaign": "C16", "wall_s": t0.elapsed().as_secs_f64()},
     });
     std::fs::write(out, serde_json::to_string_pretty(&j).unwrap()).unwrap();
